@@ -5,6 +5,13 @@
 //!                               == Lean `checkStmts codeCfg`; judged against the reference typer
 //!   (expr CTX EXPR)      corr   Ok(type) / Err class == Lean `check`; VM value type == static type
 //!   (pipe CTX (STMT*))   search accepted programs go through the real ANM compiler without panic
+//!   (xprog ..) (xexpr ..) (xpipe ..)   the same three relations over the extended language:
+//!                               difficulty switches, `++` / `--`, enum constants, label properties,
+//!                               pseudo-arguments, user-defined functions with parameters,
+//!                               multi-variable declarations, `return` at any depth.  A separate
+//!                               stream, so that the `prog` / `pipe` stream (which C04 reuses) is
+//!                               unchanged.
+//!   (replay NAME)        search the two open findings of the extended language on the real compiler
 //!
 //! The reference typer (`RefTyper`) is written from the documented rules and shares no code with
 //! `truth` or with the Lean model's `check`; it is the executable counterpart of the Lean
@@ -64,6 +71,59 @@ fn ctx_sexp(vars: &[(usize, char)], consts: &[usize]) -> Sexp {
     app("ctx", vec![app("regs", regs), app("vars", vs), app("sigs", sigs)])
 }
 
+/// the enums of the extended context (mapfile enums are int enums): (enum id, [(const var id, value)])
+const ENUMS: &[(i64, &[(usize, i32)])] = &[(0, &[(1000, 5), (1001, 6)]), (1, &[(1002, 1)])];
+/// the bare names of the enum constants are variables: int, constant
+const ENUM_CONST_VARS: &[usize] = &[1000, 1001, 1002];
+
+/// user-defined functions of a program: (id, return type, parameter variable ids)
+fn funcs_of(items: &[Sexp], out: &mut Vec<(i64, String, Vec<usize>)>) {
+    for s in items {
+        let a = s.args();
+        match s.head() {
+            Some("func") => {
+                let params = a.get(3).map(|p| p.args().iter().map(|x| x.as_usize()).collect()).unwrap_or_default();
+                out.push((a[0].as_i64(), a[1].as_atom().to_string(), params));
+                funcs_of(a[2].as_list(), out);
+            },
+            Some("if") | Some("ifelif") => { funcs_of(a[1].as_list(), out); funcs_of(a[2].as_list(), out); },
+            Some("ifnoelse") | Some("while") | Some("dowhile") | Some("times") | Some("script") => funcs_of(a[1].as_list(), out),
+            Some("timesc") => funcs_of(a[2].as_list(), out),
+            Some("loop") | Some("block") => funcs_of(a[0].as_list(), out),
+            _ => {},
+        }
+    }
+}
+
+/// context of the extended cases: the enum constants are added to the variables, the function
+/// signatures are read off the program (parameter types = declared types of the parameter variables)
+fn ctx_sexp_ext(vars: &[(usize, char)], consts: &[usize], items: &[Sexp]) -> Sexp {
+    let mut vs: Vec<(usize, char)> = vars.iter().copied().filter(|v| !ENUM_CONST_VARS.contains(&v.0)).collect();
+    let mut cs: Vec<usize> = consts.iter().copied().filter(|c| !ENUM_CONST_VARS.contains(c)).collect();
+    for &n in ENUM_CONST_VARS { vs.push((n, 'i')); cs.push(n); }
+    let base = ctx_sexp(&vs, &cs);
+    let mut parts = base.args().to_vec();
+    parts.push(app("enums", ENUMS.iter().map(|&(e, _)| Sexp::list(vec![int(e), atom("i")])).collect()));
+    let mut fs = vec![];
+    funcs_of(items, &mut fs);
+    let ty = |n: usize| vs.iter().find(|x| x.0 == n).map(|x| x.1).unwrap_or('u');
+    parts.push(app("funcs", fs.iter().map(|(id, rt, ps)| {
+        let mut v = vec![int(*id), atom(rt)];
+        for &p in ps { v.push(atom(&ty(p).to_string())); }
+        Sexp::list(v)
+    }).collect()));
+    app("ctx", parts)
+}
+
+fn mapfile_text_ext() -> String {
+    let mut s = mapfile_text();
+    for &(e, cs) in ENUMS {
+        s.push_str(&format!("!enum(name=\"En{e}\")\n"));
+        for &(n, v) in cs { s.push_str(&format!("{v} v{n}\n")); }
+    }
+    s
+}
+
 fn mapfile_text() -> String {
     let mut s = String::from("!anmmap\n!gvar_types\n");
     for &(r, t) in REGS {
@@ -119,6 +179,19 @@ fn expr_text(e: &Sexp) -> String {
         "bin" => format!("({} {} {})", expr_text(&a[1]), binop_text(a[0].as_atom()), expr_text(&a[2])),
         "tern" => format!("({} ? {} : {})", expr_text(&a[0]), expr_text(&a[1]), expr_text(&a[2])),
         "call" => format!("ins_{}({})", a[0].as_i64(), a[1..].iter().map(expr_text).collect::<Vec<_>>().join(", ")),
+        "sw" => format!("({})", a.iter().map(|c| if c.head().is_some() { expr_text(c) } else { String::new() }).collect::<Vec<_>>().join(" : ")),
+        "xcr" => {
+            let op = if a[1].as_atom() == "inc" { "++" } else { "--" };
+            if a[0].as_atom() == "pre" { format!("({}{})", op, ref_text(&a[2])) } else { format!("({}{})", ref_text(&a[2]), op) }
+        },
+        "enum" => format!("En{}.v{}", a[0].as_i64(), a[1].as_i64()),
+        "lprop" => format!("{}(lbl{})", a[0].as_atom(), a[1].as_i64()),
+        "callx" => {
+            let name = if a[0].as_atom() == "u" { format!("fn{}", a[1].as_i64()) } else { format!("ins_{}", a[1].as_i64()) };
+            let mut parts: Vec<String> = a[2].as_list().iter().map(|p| format!("@{}={}", p.args()[0].as_atom(), expr_text(&p.args()[1]))).collect();
+            parts.extend(a[3..].iter().map(expr_text));
+            format!("{}({})", name, parts.join(", "))
+        },
         h => panic!("bad expr head {h}"),
     }
 }
@@ -193,7 +266,22 @@ fn stmt_text(s: &Sexp, vars: &Vars, out: &mut String, ind: usize) {
         },
         "block" => block_text(a[0].as_list(), vars, out, ind),
         "ret" => match a.get(0) { Some(e) => out.push_str(&format!("return {};", expr_text(e))), None => out.push_str("return;") },
-        "func" => { out.push_str(&format!("inline {} fn{}() ", a[1].as_atom(), a[0].as_i64())); block_text(a[2].as_list(), vars, out, ind); },
+        "func" => {
+            let params: Vec<String> = a.get(3).map(|p| p.args().iter().map(|x| { let n = x.as_usize(); format!("{} v{}", var_kw(vars.ty(n)), n) }).collect()).unwrap_or_default();
+            let qual = match a.get(4).map(|q| q.as_atom()) { None | Some("inline") => "inline ", Some("const") => "const ", _ => "" };
+            out.push_str(&format!("{}{} fn{}({}) ", qual, a[1].as_atom(), a[0].as_i64(), params.join(", ")));
+            block_text(a[2].as_list(), vars, out, ind);
+        },
+        "decls" => {
+            let n0 = a[0].args()[0].as_usize();
+            let ds: Vec<String> = a.iter().map(|d| { let d = d.args(); match d.get(1) { Some(e) => format!("v{} = {}", d[0].as_i64(), expr_text(e)), None => format!("v{}", d[0].as_i64()) } }).collect();
+            out.push_str(&format!("{} {};", var_kw(vars.ty(n0)), ds.join(", ")));
+        },
+        "consts" => {
+            let n0 = a[0].args()[0].as_usize();
+            let ds: Vec<String> = a.iter().map(|d| { let d = d.args(); format!("v{} = {}", d[0].as_i64(), expr_text(&d[1])) }).collect();
+            out.push_str(&format!("const {} {};", var_kw(vars.ty(n0)), ds.join(", ")));
+        },
         "script" => { out.push_str(&format!("script s{} ", a[0].as_i64())); block_text(a[1].as_list(), vars, out, ind); },
         "interrupt" => out.push_str(&format!("interrupt[{}]:", expr_text(&a[0]))),
         "reltime" => out.push_str(&format!("+{}:", expr_text(&a[0]))),
@@ -217,16 +305,21 @@ enum T { I, F, S }
 #[derive(Copy, Clone, PartialEq, Eq, Debug)]
 enum ET { Void, Val(T) }
 
-struct RefTyper { regs: Vec<(i64, Option<T>)>, vars: Vec<(i64, Option<T>)>, consts: Vec<i64>, sigs: Vec<(i64, Vec<(Option<T>, bool)>)> }
+struct RefTyper { regs: Vec<(i64, Option<T>)>, vars: Vec<(i64, Option<T>)>, consts: Vec<i64>, sigs: Vec<(i64, Vec<(Option<T>, bool)>)>,
+    /// extended context: the type of every enum, the signature (return type, parameter types) of every user function
+    enums: Vec<(i64, T)>, funcs: Vec<(i64, ET, Vec<Option<T>>)> }
 
 /// why an expression is not typable; `Padding` marks calls to a signature whose optional
 /// parameters are not all at the end (where "the corresponding parameter" is what the arity
 /// rule says, not what a positional zip pairs up)
 #[derive(Copy, Clone, PartialEq, Eq, Debug)]
-enum Ill { Plain, Padding }
+enum Ill { Plain, Padding,
+    /// `++` / `--` applied to a constant: the types are fine, but constants cannot be written to
+    ConstWrite }
 
 fn vt(c: &str) -> Option<T> { match c { "i" => Some(T::I), "f" => Some(T::F), "s" => Some(T::S), _ => None } }
 fn numeric(t: T) -> bool { t == T::I || t == T::F }
+fn ret_ty(s: &str) -> ET { match s { "int" => ET::Val(T::I), "float" => ET::Val(T::F), "string" => ET::Val(T::S), _ => ET::Void } }
 
 impl RefTyper {
     fn new(ctx: &Sexp) -> RefTyper {
@@ -236,6 +329,8 @@ impl RefTyper {
             regs: pairs(&a[0]), vars: pairs(&a[1]),
             consts: a[1].args().iter().filter(|p| p.as_list().get(2).map(|m| m.as_atom() == "c").unwrap_or(false)).map(|p| p.as_list()[0].as_i64()).collect(),
             sigs: a[2].args().iter().map(|s| { let s = s.as_list(); (s[0].as_i64(), s[1..].iter().map(|p| { let p = p.as_list(); (vt(p[0].as_atom()), p[1].as_atom() == "o") }).collect()) }).collect(),
+            enums: a.get(3).map(|e| e.args().iter().map(|p| { let p = p.as_list(); (p[0].as_i64(), vt(p[1].as_atom()).unwrap_or(T::I)) }).collect()).unwrap_or_default(),
+            funcs: a.get(4).map(|f| f.args().iter().map(|p| { let p = p.as_list(); (p[0].as_i64(), ret_ty(p[1].as_atom()), p[2..].iter().map(|t| vt(t.as_atom())).collect()) }).collect()).unwrap_or_default(),
         }
     }
     fn inherent(&self, is_reg: bool, id: i64) -> Option<T> {
@@ -299,6 +394,47 @@ impl RefTyper {
                 }
                 return Ok(ET::Void);
             },
+            // all the cases that are written have one value type: the type of the switch
+            "sw" => {
+                let t = self.value(&a[0])?;
+                for c in &a[1..] { if c.head().is_some() && self.value(c)? != t { return Err(Ill::Plain); } }
+                t
+            },
+            // `++` / `--`: int variables only (through a sigil or not); constants cannot be written to
+            "xcr" => {
+                if self.ref_access(&a[2])? != T::I { return Err(Ill::Plain); }
+                if self.assignable(&a[2]).is_err() { return Err(Ill::ConstWrite); }
+                T::I
+            },
+            "enum" => self.enums.iter().find(|e| e.0 == a[0].as_i64()).map(|e| e.1).ok_or(Ill::Plain)?,
+            "lprop" => T::I,
+            "callx" => {
+                let user = a[0].as_atom() == "u";
+                let pseudos = a[2].as_list();
+                let mut blob = false;
+                for p in pseudos {
+                    let (k, t) = (p.args()[0].as_atom(), self.value(&p.args()[1])?);
+                    if k == "blob" { blob = true; }
+                    if t != (if k == "blob" { T::S } else { T::I }) { return Err(Ill::Plain); }
+                }
+                let args = &a[3..];
+                // pseudo-arguments belong to instructions; a blob stands for all the arguments
+                if user && !pseudos.is_empty() { return Err(Ill::Plain); }
+                if blob { return if args.is_empty() { Ok(ET::Void) } else { Err(Ill::Plain) }; }
+                let (params, rt): (Vec<Option<T>>, ET) = if user {
+                    let f = self.funcs.iter().find(|f| f.0 == a[1].as_i64()).ok_or(Ill::Plain)?;
+                    (f.2.clone(), f.1)
+                } else {
+                    let sig = &self.sigs.iter().find(|s| s.0 == a[1].as_i64()).ok_or(Ill::Plain)?.1;
+                    (sig.iter().filter(|p| !p.1).map(|p| p.0).collect(), ET::Void)
+                };
+                if args.len() != params.len() { return Err(Ill::Plain); }
+                for (arg, p) in args.iter().zip(params) {
+                    let t = self.value(arg)?;
+                    if let Some(pt) = p { if pt != t { return Err(Ill::Plain); } }
+                }
+                return Ok(rt);
+            },
             h => panic!("bad expr head {h}"),
         }))
     }
@@ -343,6 +479,14 @@ impl RefTyper {
                 (None, Some(rt)) => if rt == ET::Void { Ok(()) } else { Err(Ill::Plain) },
                 (Some(e), Some(rt)) => if ET::Val(self.value(e)?) == rt { Ok(()) } else { Err(Ill::Plain) },
             },
+            "decls" => {
+                for d in a { let d = d.args(); if let Some(e) = d.get(1) { let t = self.value(e)?; if self.inherent(false, d[0].as_i64()) != Some(t) { return Err(Ill::Plain); } } }
+                Ok(())
+            },
+            "consts" => {
+                for d in a { let d = d.args(); let t = self.value(&d[1])?; if self.inherent(false, d[0].as_i64()) != Some(t) { return Err(Ill::Plain); } }
+                Ok(())
+            },
             "loop" | "inert" | "block" | "func" | "script" => Ok(()),
             h => panic!("bad stmt head {h}"),
         }
@@ -359,9 +503,10 @@ impl RefTyper {
                     "interrupt" => "stmt=interrupt-label", "reltime" => "stmt=rel-time-label", "const" => "stmt=const-decl",
                     "estmt" => "stmt=expr", "assign" => "stmt=assign", "decl" => "stmt=decl", "if" | "ifelif" | "ifnoelse" => "stmt=if-cond",
                     "while" | "dowhile" => "stmt=while-cond", "times" | "timesc" => "stmt=times", "cjump" => "stmt=cond-jump", "ret" => "stmt=return",
+                    "decls" => "stmt=decls", "consts" => "stmt=const-decls",
                     _ => "stmt=other",
                 };
-                let culprit = within.unwrap_or(match why { Ill::Padding => "call=padding", Ill::Plain => own });
+                let culprit = within.unwrap_or(match why { Ill::Padding => "call=padding", Ill::ConstWrite => "xcrement-of-constant", Ill::Plain => own });
                 out.push(culprit.to_string());
             }
             let a = s.args();
@@ -405,6 +550,15 @@ struct Gen<'a> {
     next_root: i64,
     /// restrict to what the ANM lowering can reasonably compile (pipeline cases)
     tame: bool,
+    /// the extended language (difficulty switches, `++` / `--`, enum constants, label properties,
+    /// pseudo-arguments, user functions, multi-variable declarations, `return` at any depth).
+    /// Every random draw that exists only for it is guarded by this flag, so the stream of the
+    /// non-extended generator is what it always was.
+    ext: bool,
+    /// user-defined functions that can be called: (id, return type 'v' / 'i' / 'f', parameter types)
+    funcs: Vec<(i64, char, Vec<char>)>,
+    /// return type of the function whose body is being generated
+    ret: Option<char>,
 }
 
 impl Gen<'_> {
@@ -428,6 +582,7 @@ impl Gen<'_> {
         }
     }
     fn leaf(&mut self, t: char) -> Sexp {
+        if self.ext && self.rng.chance(1, 5) { if let Some(e) = self.ext_leaf(t) { return e; } }
         if t == 's' {
             let vs = self.in_scope('s');
             if !vs.is_empty() && self.rng.chance(1, 2) { return app("var", vec![int(*self.rng.pick(&vs) as i64), atom("n")]); }
@@ -455,6 +610,7 @@ impl Gen<'_> {
     fn expr(&mut self, t: char, depth: u32) -> Sexp {
         if depth == 0 || self.rng.chance(1, 4) { return self.leaf(t); }
         let d = depth - 1;
+        if self.ext && self.rng.chance(1, 4) { if let Some(e) = self.ext_expr(t, d) { return e; } }
         if self.tame {
             // what the TH12 ANM instruction set can lower: arithmetic, negation, sin/cos, casts, ternary
             return match (t, self.rng.below(8)) {
@@ -502,6 +658,7 @@ impl Gen<'_> {
         } else { self.expr('i', depth) }
     }
     fn call(&mut self, depth: u32) -> Sexp {
+        if self.ext && self.rng.chance(1, 3) { return self.ext_call(depth); }
         // mostly signatures with trailing-only padding; `S_f` (906) rarely, strings outside `tame`
         let mut pool: Vec<usize> = vec![0, 1, 2, 3, 4, 5];
         if !self.tame { pool.push(7); if self.rng.chance(1, 6) { pool.push(6); } }
@@ -510,6 +667,150 @@ impl Gen<'_> {
         for &(t, optional) in ps { if !optional { v.push(self.expr(t, depth)); } }
         app("call", v)
     }
+    // ---- the extended language ------------------------------------------------------------
+    fn xcr(&mut self) -> Sexp {
+        let r = self.target('i');
+        app("xcr", vec![atom(if self.rng.chance(1, 2) { "pre" } else { "post" }), atom(if self.rng.chance(1, 2) { "inc" } else { "dec" }), r])
+    }
+    fn ext_leaf(&mut self, t: char) -> Option<Sexp> {
+        if t != 'i' { return None; }
+        Some(match self.rng.below(4) {
+            0 => self.xcr(),
+            // qualified and bare enum constants
+            1 => { let &(e, cs) = self.rng.pick(ENUMS); let c = self.rng.pick(cs).0; app("enum", vec![int(e), int(c as i64)]) },
+            2 => { let &(_, cs) = self.rng.pick(ENUMS); let c = self.rng.pick(cs).0; app("var", vec![int(c as i64), atom("n")]) },
+            _ => app("lprop", vec![atom(if self.rng.chance(1, 2) { "offsetof" } else { "timeof" }), int(self.label)]),
+        })
+    }
+    fn ext_expr(&mut self, t: char, d: u32) -> Option<Sexp> {
+        match self.rng.below(3) {
+            // a difficulty switch of 2..4 cases, blank ones after the first
+            0 | 1 => {
+                let mut v = vec![self.expr(t, d)];
+                for _ in 0..1 + self.rng.below(3) { if self.rng.chance(1, 4) { v.push(atom("_")); } else { v.push(self.expr(t, d)); } }
+                Some(app("sw", v))
+            },
+            // a value-returning user function
+            _ => {
+                let c: Vec<(i64, char, Vec<char>)> = self.funcs.iter().filter(|f| f.1 == t).cloned().collect();
+                if c.is_empty() { return None; }
+                let (id, _, ps) = self.rng.pick(&c).clone();
+                Some(self.user_call(id, &ps, d))
+            },
+        }
+    }
+    fn user_call(&mut self, id: i64, params: &[char], d: u32) -> Sexp {
+        let mut v = vec![atom("u"), int(id), Sexp::list(vec![])];
+        for &p in params { let t = if p == 'u' { *self.rng.pick(&['i', 'f', 's']) } else { p }; v.push(self.expr(t, d)); }
+        app("callx", v)
+    }
+    /// a void call: an instruction with pseudo-arguments, a blob, or a void user function
+    fn ext_call(&mut self, depth: u32) -> Sexp {
+        let voids: Vec<(i64, char, Vec<char>)> = self.funcs.iter().filter(|f| f.1 == 'v').cloned().collect();
+        match self.rng.below(4) {
+            0 if !voids.is_empty() => { let (id, _, ps) = self.rng.pick(&voids).clone(); self.user_call(id, &ps, depth) },
+            1 => {
+                // `ins_N(@blob="..")`, sometimes with int pseudo-arguments in front; no signature needed
+                let mut ps = vec![];
+                if self.rng.chance(1, 3) { ps.push(app("ps", vec![atom("mask"), self.expr('i', 1)])); }
+                ps.push(app("ps", vec![atom("blob"), app("s", vec![Sexp::str(*self.rng.pick(&["00000000", "0100000002000000"]))])]));
+                let op = *self.rng.pick(&[900, 902, OPCODE_NO_SIG]);
+                app("callx", vec![atom("i"), int(op as i64), Sexp::list(ps)])
+            },
+            _ => {
+                let &(op, _, sig) = &SIGS[*self.rng.pick(&[0usize, 1, 2, 3, 4])];
+                let mut ps = vec![];
+                for _ in 0..1 + self.rng.below(2) { ps.push(app("ps", vec![atom(*self.rng.pick(&["mask", "pop", "arg0", "nargs"])), self.expr('i', depth.min(2))])); }
+                let mut v = vec![atom("i"), int(op as i64), Sexp::list(ps)];
+                for &(t, optional) in sig { if !optional { v.push(self.expr(t, depth)); } }
+                app("callx", v)
+            },
+        }
+    }
+    fn ext_stmt(&mut self) -> Option<Sexp> {
+        let ed = 1 + self.rng.below(2) as u32;
+        match self.rng.below(6) {
+            // `interrupt[(1 : 2)]:` / `+En0.v1000:` (label expressions are int-only positions too)
+            5 => {
+                let e = if self.rng.chance(1, 2) { app("sw", vec![self.lit('i'), self.lit('i')]) } else { let &(e, cs) = self.rng.pick(ENUMS); let c = self.rng.pick(cs).0; app("enum", vec![int(e), int(c as i64)]) };
+                Some(app(if self.rng.chance(1, 2) { "interrupt" } else { "reltime" }, vec![e]))
+            },
+            // `int a = e, b, c = e;`
+            0 | 1 => {
+                let t = self.numeric_ty();
+                let mut ds = vec![];
+                for _ in 0..2 + self.rng.below(2) {
+                    let init = if self.rng.chance(2, 3) { Some(self.expr(t, ed)) } else { None };
+                    let n = self.new_var(t);
+                    self.scopes.last_mut().unwrap().push(n);
+                    ds.push(match init { Some(e) => app("d", vec![int(n as i64), e]), None => app("d", vec![int(n as i64)]) });
+                }
+                Some(app("decls", ds))
+            },
+            // `const float a = e, b = e;`
+            2 => {
+                let t = self.numeric_ty();
+                let mut ds = vec![];
+                for _ in 0..2 + self.rng.below(2) {
+                    let e = self.const_expr(t, 2);
+                    let n = self.new_var(t);
+                    self.consts.push(n);
+                    self.scopes.last_mut().unwrap().push(n);
+                    ds.push(app("d", vec![int(n as i64), e]));
+                }
+                Some(app("consts", ds))
+            },
+            // `return e;` / `return;` wherever we are inside a function
+            3 => match self.ret {
+                Some('v') => Some(app("ret", vec![])),
+                Some(t) => Some(app("ret", vec![self.expr(t, ed)])),
+                None => None,
+            },
+            // `++x;` is not a statement of the language: an expression statement must be void
+            _ => Some(app("estmt", vec![self.ext_call(ed)])),
+        }
+    }
+    /// `inline int fnK(int a, float b, var c) { .. }`; the parameters are variables of the body
+    fn func_item(&mut self, depth: u32) -> Sexp {
+        let rt = *self.rng.pick(&['v', 'i', 'f']);
+        let id = self.next_root;
+        let qual = match self.rng.below(6) { 0 => "sub", 1 => "const", _ => "inline" };
+        let mut params = vec![];
+        let mut ptys = vec![];
+        self.scopes.push(vec![]);
+        for _ in 0..self.rng.below(4) {
+            let t = *self.rng.pick(&['i', 'f', 'i', 'f', 'u']);
+            let n = self.new_var(t);
+            self.scopes.last_mut().unwrap().push(n);
+            params.push(int(n as i64));
+            ptys.push(t);
+        }
+        // callable from its own body (recursion type-checks like any other call) and from everything after it
+        self.funcs.push((id, rt, ptys));
+        let body = if qual == "const" {
+            // `const` functions may not name registers or instructions: a single `return` over parameters and literals
+            self.label = self.next_root; self.next_root += 1;
+            match rt { 'v' => Sexp::list(vec![app("ret", vec![])]), t => { let e = self.param_expr(t, 2); Sexp::list(vec![app("ret", vec![e])]) } }
+        } else {
+            let saved = self.ret.replace(rt);
+            let b = self.root_body(depth.min(2), Some(rt));
+            self.ret = saved;
+            b
+        };
+        self.scopes.pop();
+        app("func", vec![int(id), atom(match rt { 'i' => "int", 'f' => "float", _ => "void" }), body, app("params", params), atom(qual)])
+    }
+    /// an expression over the variables in scope and literals only
+    fn param_expr(&mut self, t: char, depth: u32) -> Sexp {
+        let vs = self.in_scope(t);
+        if depth == 0 || self.rng.chance(1, 3) {
+            if !vs.is_empty() && self.rng.chance(2, 3) { return app("var", vec![int(*self.rng.pick(&vs) as i64), atom("n")]); }
+            return self.lit(t);
+        }
+        let op = *self.rng.pick(&["add", "sub", "mul"]);
+        app("bin", vec![atom(op), self.param_expr(t, depth - 1), self.param_expr(t, depth - 1)])
+    }
+
     fn numeric_ty(&mut self) -> char { if self.rng.chance(1, 2) { 'i' } else { 'f' } }
     fn target(&mut self, t: char) -> Sexp {
         let sig = if t == 'i' { "i" } else { "f" };
@@ -529,6 +830,7 @@ impl Gen<'_> {
         Sexp::list(v)
     }
     fn stmt(&mut self, depth: u32) -> Sexp {
+        if self.ext && self.rng.chance(1, 5) { if let Some(st) = self.ext_stmt() { return st; } }
         let ed = 1 + self.rng.below(3) as u32;
         let k = if depth == 0 { self.rng.below(9) } else { self.rng.below(20) };
         match k {
@@ -622,7 +924,10 @@ impl Gen<'_> {
             self.scopes.last_mut().unwrap().push(n);
             items.push(app("const", vec![int(n as i64), e]));
         }
-        if !self.tame && self.rng.chance(1, 4) {
+        if self.ext {
+            for _ in 0..1 + self.rng.below(3) { let f = self.func_item(depth); items.push(f); }
+        }
+        if !self.ext && !self.tame && self.rng.chance(1, 4) {
             let rt = *self.rng.pick(&['v', 'i', 'f']);
             let id = self.next_root;
             let body = self.root_body(depth.min(2), Some(rt));
@@ -641,7 +946,9 @@ impl Gen<'_> {
 // ---------------------------------------------------------------------------------------------
 // single-point mutations
 
-const EXPR_HEADS: &[&str] = &["i", "f", "s", "reg", "var", "un", "bin", "tern", "call"];
+const EXPR_HEADS: &[&str] = &["i", "f", "s", "reg", "var", "un", "bin", "tern", "call", "sw", "xcr", "enum", "lprop", "callx"];
+/// list nodes that are neither expressions nor statements (parts of the extended grammar)
+const PART_HEADS: &[&str] = &["ref", "ps", "d", "params"];
 
 fn other_ty(t: char, rng: &mut Rng) -> char {
     let c: Vec<char> = ['i', 'f', 's'].iter().copied().filter(|&x| x != t).collect();
@@ -712,6 +1019,43 @@ fn expr_node_mutations(e: &Sexp, typer: &RefTyper, rng: &mut Rng) -> Vec<(Sexp, 
             if other != a[0].as_i64() { let mut v = a.to_vec(); v[0] = int(other); out.push((app("call", v), "argument")); }
             let mut v = a.to_vec(); v[0] = int(OPCODE_NO_SIG as i64); out.push((app("call", v), "argument"));
         },
+        "sw" => {
+            // one case (the first, a later one, one after a blank) becomes a value of another type
+            if let Some(t) = here {
+                for k in 0..a.len() {
+                    if a[k].head().is_none() { continue; }
+                    let mut v = a.to_vec(); v[k] = lit_of(other_ty(t, rng), rng); out.push((app("sw", v), "switch-case"));
+                }
+                // a blank case more, a case less: still well-typed
+                let mut v = a.to_vec(); v.insert(1, atom("_")); out.push((app("sw", v), "switch-blank"));
+                if a.len() > 2 { let mut v = a.to_vec(); v.pop(); out.push((app("sw", v), "switch-blank")); }
+            }
+        },
+        "xcr" => {
+            // the operand becomes a float register / an untyped one; sigils and constants through the `ref` node
+            out.push((app("xcr", vec![a[0].clone(), a[1].clone(), app("ref", vec![atom("r"), int(reg_of('f', rng)), atom("n")])]), "xcrement"));
+            out.push((app("xcr", vec![a[0].clone(), a[1].clone(), app("ref", vec![atom("r"), int(reg_of('u', rng)), atom("n")])]), "xcrement"));
+            out.push((app("xcr", vec![a[0].clone(), a[1].clone(), app("ref", vec![atom("r"), int(reg_of('f', rng)), atom("i")])]), "xcrement"));
+        },
+        "enum" | "lprop" => { out.push((lit_of(other_ty('i', rng), rng), "operand")); },
+        "callx" => {
+            let user = a[0].as_atom() == "u";
+            let pseudos = a[2].as_list();
+            let with = |ps: Vec<Sexp>, args: &[Sexp]| { let mut v = vec![a[0].clone(), a[1].clone(), Sexp::list(ps)]; v.extend(args.iter().cloned()); app("callx", v) };
+            // arity
+            if a.len() > 3 { out.push((with(pseudos.to_vec(), &a[3..a.len() - 1]), "argument")); }
+            let mut more = a[3..].to_vec(); more.push(lit_of('i', rng)); out.push((with(pseudos.to_vec(), &more), "argument"));
+            // a pseudo-argument of the wrong type, of another kind, a blob next to normal arguments, a pseudo-argument on a user function
+            if let Some(p) = pseudos.first() {
+                let k = p.args()[0].as_atom();
+                let mut ps = pseudos.to_vec(); ps[0] = app("ps", vec![atom(k), lit_of(if k == "blob" { 'i' } else { 'f' }, rng)]); out.push((with(ps, &a[3..]), "pseudo"));
+                let mut ps = pseudos.to_vec(); ps[0] = app("ps", vec![atom(if k == "blob" { "mask" } else { "blob" }), p.args()[1].clone()]); out.push((with(ps, &a[3..]), "pseudo"));
+                out.push((with(pseudos[1..].to_vec(), &a[3..]), "pseudo"));
+            }
+            let mut ps = pseudos.to_vec(); ps.push(app("ps", vec![atom("blob"), lit_of('s', rng)])); out.push((with(ps, &a[3..]), "pseudo"));
+            let mut ps = pseudos.to_vec(); ps.insert(0, app("ps", vec![atom("mask"), lit_of('i', rng)])); out.push((with(ps, &a[3..]), "pseudo"));
+            if !user { let mut v = a.to_vec(); v[1] = int(OPCODE_NO_SIG as i64); out.push((app("callx", v), "argument")); }
+        },
         _ => {},
     }
     // wrap in a cast to another type (any value-typed node)
@@ -745,17 +1089,18 @@ fn mutants(ctx: &Sexp, items: &[Sexp], rng: &mut Rng, per_node: usize) -> Vec<(S
         // innermost enclosing statement head and whether a free block is on the way
         let mut node = whole; let mut kinds: Vec<&str> = vec![];
         for &i in path {
-            if let Some(h) = node.head() { if !EXPR_HEADS.contains(&h) && h != "ref" { kinds.push(h); } }
+            if let Some(h) = node.head() { if !EXPR_HEADS.contains(&h) && !PART_HEADS.contains(&h) { kinds.push(h); } }
             node = &node.as_list()[i];
         }
-        if let Some(h) = node.head() { if !EXPR_HEADS.contains(&h) && h != "ref" { kinds.push(h); } }
+        if let Some(h) = node.head() { if !EXPR_HEADS.contains(&h) && !PART_HEADS.contains(&h) { kinds.push(h); } }
         let inner = kinds.last().copied().unwrap_or("?");
         format!("{}{}", if kinds.contains(&"block") { "in-block/" } else { "" }, inner)
     }
     fn in_const(whole: &Sexp, path: &[usize]) -> bool {
         let mut node = whole;
-        for &i in path { if node.head() == Some("const") { return true; } node = &node.as_list()[i]; }
-        node.head() == Some("const")
+        let is_const = |n: &Sexp| matches!(n.head(), Some("const") | Some("consts")) || (n.head() == Some("func") && n.args().get(4).map(|q| q.as_atom() == "const").unwrap_or(false));
+        for &i in path { if is_const(node) { return true; } node = &node.as_list()[i]; }
+        is_const(node)
     }
     // top-level `const` items are in scope in everything that follows them
     let ctx_vars = Vars::from_ctx(ctx);
@@ -784,6 +1129,10 @@ fn mutants(ctx: &Sexp, items: &[Sexp], rng: &mut Rng, per_node: usize) -> Vec<(S
             let a = node.args();
             let alt: &[&str] = match a[1].as_atom() { "assign" => &["add", "band"], "add" | "sub" | "mul" | "div" | "rem" => &["shl", "bor"], _ => &["add", "assign"] };
             for o in alt { variants.push((app("assign", vec![a[0].clone(), atom(o), a[2].clone()]), "operator")); }
+        } else if head == "func" && node.args().len() > 3 {
+            // another return type: every `return` of the body is affected
+            let a = node.args();
+            for rt in ["int", "float", "void"] { if rt != a[1].as_atom() { let mut v = a.to_vec(); v[1] = atom(rt); variants.push((app("func", v), "return-type")); } }
         } else if head == "ret" {
             let a = node.args();
             if a.is_empty() { variants.push((app("ret", vec![lit_of('i', rng)]), "operand")); } else { variants.push((app("ret", vec![]), "operand")); }
@@ -791,7 +1140,7 @@ fn mutants(ctx: &Sexp, items: &[Sexp], rng: &mut Rng, per_node: usize) -> Vec<(S
         let kind = stmt_kind_at(&whole, path);
         // `const` initialisers may not mention raw registers or instructions (rejected before
         // type checking, by `assign_languages`)
-        if in_const(&whole, path) { variants.retain(|(v, _)| !has_head(v, "reg") && !has_head(v, "call")); }
+        if in_const(&whole, path) { variants.retain(|(v, _)| !has_head(v, "reg") && !has_head(v, "call") && !has_head(v, "callx") && !has_head(v, "ref")); }
         if variants.len() > per_node { rng.shuffle(&mut variants); variants.truncate(per_node); }
         for (v, tag) in variants {
             out.push((ctx.clone(), replace(&whole, path, &v), format!("mut-{tag}@{kind}")));
@@ -801,14 +1150,24 @@ fn mutants(ctx: &Sexp, items: &[Sexp], rng: &mut Rng, per_node: usize) -> Vec<(S
     // `float x = e;` / `var x = e;`); every use of the variable is affected
     let vars = Vars::from_ctx(ctx);
     let mut const_ids: Vec<usize> = vec![];
-    walk(&whole, &mut vec![], &mut |n, _| { if n.head() == Some("const") { const_ids.push(n.args()[0].as_usize()); } });
+    walk(&whole, &mut vec![], &mut |n, _| {
+        if n.head() == Some("const") { const_ids.push(n.args()[0].as_usize()); }
+        if n.head() == Some("consts") { for d in n.args() { const_ids.push(d.args()[0].as_usize()); } }
+    });
+    // the variables of one `T a, b, c;` share the keyword
+    let mut groups: Vec<Vec<usize>> = vec![];
+    walk(&whole, &mut vec![], &mut |n, _| { if matches!(n.head(), Some("decls") | Some("consts")) { groups.push(n.args().iter().map(|d| d.args()[0].as_usize()).collect()); } });
     for &(n, t) in &vars.0 {
+        if ENUM_CONST_VARS.contains(&n) { continue; }
+        let group: Vec<usize> = groups.iter().find(|g| g.contains(&n)).cloned().unwrap_or_else(|| vec![n]);
+        if group[0] != n { continue; }
         let mut nts = vec![match t { 'i' => 'f', 'f' => 'i', _ => 'i' }];
         if !const_ids.contains(&n) && t != 'u' { nts.push('u'); }
         for nt in nts {
             let mut nv = vars.0.clone();
-            for x in nv.iter_mut() { if x.0 == n { x.1 = nt; } }
-            out.push((ctx_sexp(&nv, &const_ids), whole.clone(), "mut-declared-type".to_string()));
+            for x in nv.iter_mut() { if group.contains(&x.0) { x.1 = nt; } }
+            let nctx = if ctx.args().len() > 3 { ctx_sexp_ext(&nv, &const_ids, items) } else { ctx_sexp(&nv, &const_ids) };
+            out.push((nctx, whole.clone(), "mut-declared-type".to_string()));
         }
     }
     out
@@ -833,10 +1192,12 @@ fn max_depth(stmts: &[Sexp]) -> usize {
 enum Front { Accepted, Rejected(String), Invalid(String) }
 
 /// parse + assign_languages + resolve_names + type_check::run on a whole script file
-fn front(text: &str) -> Front {
+fn front(text: &str) -> Front { front_with(text, &mapfile_text()) }
+
+fn front_with(text: &str, mapfile: &str) -> Front {
     let mut scope = truth::Builder::new().capture_diagnostics(true).build();
     let mut truth = scope.truth();
-    truth.apply_mapfile_str(&mapfile_text(), truth::Game::Th12).expect("mapfile");
+    truth.apply_mapfile_str(mapfile, truth::Game::Th12).expect("mapfile");
     let mut script = match truth.parse::<ast::ScriptFile>("<input>", text.as_bytes()) {
         Ok(x) => x.value,
         Err(e) => { e.ignore(); return Front::Invalid(format!("parse: {}", diag_class(&truth.get_captured_diagnostics().unwrap_or_default()))); },
@@ -851,8 +1212,18 @@ fn front(text: &str) -> Front {
     }
 }
 
+fn is_ext(ctx: &Sexp) -> bool { ctx.args().len() > 3 }
+fn mapfile_for(ctx: &Sexp) -> String { if is_ext(ctx) { mapfile_text_ext() } else { mapfile_text() } }
+
+/// the context of an extended case with the function signatures read off (mutated) `items`
+fn refresh_ext_ctx(ctx: &Sexp, items: &[Sexp]) -> Sexp {
+    let vars = Vars::from_ctx(ctx);
+    let consts: Vec<usize> = ctx.args()[1].args().iter().filter(|p| p.as_list().get(2).map(|m| m.as_atom() == "c").unwrap_or(false)).map(|p| p.as_list()[0].as_usize()).collect();
+    ctx_sexp_ext(&vars.0, &consts, items)
+}
+
 fn eval_prog(ctx: &Sexp, items: &[Sexp]) -> Sexp {
-    match front(&program_text(ctx, items)) {
+    match front_with(&program_text(ctx, items), &mapfile_for(ctx)) {
         Front::Accepted => app("ok", vec![]),
         Front::Rejected(c) => app("err", vec![Sexp::str(c)]),
         Front::Invalid(c) => app("invalid", vec![Sexp::str(c), Sexp::str(program_text(ctx, items))]),
@@ -869,10 +1240,10 @@ fn has_head(e: &Sexp, h: &str) -> bool {
 }
 fn has_call(e: &Sexp) -> bool { has_head(e, "call") }
 
-fn eval_expr(e: &Sexp) -> Sexp {
+fn eval_expr(ectx: &Sexp, e: &Sexp) -> Sexp {
     let mut scope = truth::Builder::new().capture_diagnostics(true).build();
     let mut truth = scope.truth();
-    truth.apply_mapfile_str(&mapfile_text(), truth::Game::Th12).expect("mapfile");
+    truth.apply_mapfile_str(&mapfile_for(ectx), truth::Game::Th12).expect("mapfile");
     let text = expr_text(e);
     let mut expr = match truth.parse::<ast::Expr>("<input>", text.as_bytes()) {
         Ok(x) => x,
@@ -888,9 +1259,11 @@ fn eval_expr(e: &Sexp) -> Sexp {
     }
     let static_ty = expr.compute_ty(ctx).as_value_ty();
     // dynamic type: evaluate in the VM under a valuation that respects the register types
-    if !has_call(e) {
+    // (the VM has no calls, enum constants or label properties)
+    for difficulty in 0..(if is_ext(ectx) { 3u32 } else { 1 }) {
+    if !has_call(e) && !has_head(e, "callx") && !has_head(e, "enum") && !has_head(e, "lprop") {
         let value = std::panic::catch_unwind(std::panic::AssertUnwindSafe(|| {
-            let mut vm = truth::vm::AstVm::new();
+            let mut vm = truth::vm::AstVm::new().with_difficulty(difficulty);
             for &(r, t) in REGS {
                 match t {
                     'f' => vm.set_reg(RegId(r), ScalarValue::Float(1.5 + (r % 4) as f32)),
@@ -906,8 +1279,9 @@ fn eval_expr(e: &Sexp) -> Sexp {
                     return fail("static-type-differs-from-dynamic", format!("{text}: compute_ty {} but the VM value is {}", ty_name(static_ty), ty_name(dynamic)));
                 }
             },
-            Err(_) => {}, // undefined at run time (integer division by zero): nothing to compare
+            Err(_) => {}, // undefined at run time (integer division by zero, a difficulty without a case): nothing to compare
         }
+    }
     }
     app("ok", vec![atom(ty_name(static_ty))])
 }
@@ -919,13 +1293,13 @@ const ENTRY: &str = "entry { path: \"a.png\", has_data: false, img_width: 16, im
 /// ill-typed, that acceptance is the failure (and what happens later is reported as detail).
 fn eval_pipe(ctx: &Sexp, items: &[Sexp]) -> Sexp {
     let text = program_text(ctx, items);
-    match front(&text) {
+    match front_with(&text, &mapfile_for(ctx)) {
         Front::Rejected(c) => return app("pass-rejected-by-typecheck", vec![Sexp::str(c)]),
         Front::Invalid(c) => return app("invalid", vec![Sexp::str(c)]),
         Front::Accepted => {},
     }
     let full = format!("{ENTRY}{text}");
-    let maps = vec![mapfile_text()];
+    let maps = vec![mapfile_for(ctx)];
     let sites = ill_typed_sites(ctx, items);
     if !sites.is_empty() {
         let later = std::panic::catch_unwind(|| crate::tc::compile(crate::tc::Format::Anm, truth::Game::Th12, &maps, full.as_bytes()));
@@ -948,10 +1322,39 @@ fn eval_pipe(ctx: &Sexp, items: &[Sexp]) -> Sexp {
 // ---------------------------------------------------------------------------------------------
 
 fn gen_program(rng: &mut Rng, tame: bool, depth: u32) -> (Sexp, Vec<Sexp>) {
-    let mut g = Gen { rng, vars: vec![], scopes: vec![], consts: vec![], loops: 0, label: 0, next_root: 0, tame };
+    let mut g = Gen { rng, vars: vec![], scopes: vec![], consts: vec![], loops: 0, label: 0, next_root: 0, tame, ext: false, funcs: vec![], ret: None };
     let items = g.program(depth);
     let ctx = ctx_sexp(&g.vars, &g.consts);
     (ctx, items)
+}
+
+fn gen_program_ext(rng: &mut Rng, tame: bool, depth: u32) -> (Sexp, Vec<Sexp>) {
+    let mut g = Gen { rng, vars: vec![], scopes: vec![], consts: vec![], loops: 0, label: 0, next_root: 0, tame, ext: true, funcs: vec![], ret: None };
+    let items = g.program(depth);
+    let ctx = ctx_sexp_ext(&g.vars, &g.consts, &items);
+    (ctx, items)
+}
+
+/// The two open findings of the extended language, on the real compiler (full `compile` of a
+/// source text, in the game where the defect shows):
+/// * `xcrement-const`: `--c` on a constant is accepted by the type checker (an assignment to it is
+///   rejected since 0757655) and lowering panics (TH08 ANM has the count jump `if (--x > 0) goto`);
+/// * `string-enum-const`: `EclSubName.foo` (the built-in string enum of TH10+ ECL sub names):
+///   `check_expr` answers string, `compute_ty` int; the `debug_assert_eq!` of `check_expr` fires.
+fn eval_replay(name: &str) -> Sexp {
+    let entry8 = ENTRY;
+    let (format, game, maps, text): (crate::tc::Format, truth::Game, Vec<String>, String) = match name {
+        "xcrement-const" => (crate::tc::Format::Anm, truth::Game::Th08, vec![], format!("{entry8}const int c = 3;\nscript s0 {{ l: if (--c > 0) goto l; }}\n")),
+        "xcrement-local" => (crate::tc::Format::Anm, truth::Game::Th08, vec![], format!("{entry8}script s0 {{ int c = 3; l: if (--c > 0) goto l; }}\n")),
+        "string-enum-const" => (crate::tc::Format::Ecl, truth::Game::Th10, vec!["!eclmap\n!ins_signatures\n11 P(bs=4)\n".to_string()], "void foo() { ins_11(EclSubName.foo); }\n".to_string()),
+        "string-enum-bare" => (crate::tc::Format::Ecl, truth::Game::Th10, vec!["!eclmap\n!ins_signatures\n11 P(bs=4)\n".to_string()], "void foo() { ins_11(foo); }\n".to_string()),
+        _ => return atom("bad-case"),
+    };
+    let o = crate::tc::compile(format, game, &maps, text.as_bytes());
+    match o.value {
+        Some(bytes) => app("pass-compiled", vec![int(bytes.len() as i64)]),
+        None => if o.has_error_diag() { app("pass-diagnostic", vec![Sexp::str(diag_class(&o.diagnostics))]) } else { fail("failure-without-error-diagnostic", text.replace('\n', " ")) },
+    }
 }
 
 /// the hand-written witnesses of section 5 of Props/C09.lean (defects of the pinned tree, all
@@ -974,13 +1377,13 @@ fn witnesses() -> Vec<(Sexp, Vec<Sexp>, &'static str)> {
 impl Prop for C09 {
     fn id(&self) -> &'static str { "C09" }
     fn relation(&self) -> &'static str {
-        "prog: Ok / Err(first diagnostic class) of passes::type_check::run on the parsed, resolved script file == Lean `checkStmts codeCfg` (model of Visitor::visit_stmt incl. which statement kinds it walks); expr: Ok(compute_ty) / Err class == Lean `check`; every result is also judged against an independent reference typer written from the documented rules (executable counterpart of Lean `HasType` / `WellTypedStmts`)"
+        "prog / xprog: Ok / Err(first diagnostic class) of passes::type_check::run on the parsed, resolved script file == Lean `checkStmts codeCfg` (model of Visitor::visit_stmt incl. which statement kinds it walks); expr / xexpr: Ok(compute_ty) / Err class == Lean `check`; every result is also judged against an independent reference typer written from the documented rules (executable counterpart of Lean `HasType` / `WellTypedStmts` / `WritesOk`); x* = the extended language (difficulty switches, ++ / --, enum constants, label properties, pseudo-arguments, user-defined functions with parameters, multi-variable declarations, return at any depth)"
     }
     fn rule(&self) -> &'static str {
-        "type-directed random programs (global consts, inline functions with return, scripts; assignments and compound assignments, declarations with/without initialiser incl. untyped `var`, const declarations, instruction calls against 8 signatures incl. padding and string parameters, if / else-if / else, while, do-while, loop, times with and without clobber, conditional goto/break, interrupt and time labels, free blocks nested up to depth 4) and ALL their single-point mutations: every expression node at every depth (literal, operand, variable, sigil, cast, operator, argument, arity, opcode), every assignment/clobber target, every assignment operator, every return, every declared type; plus standalone expressions with their mutations; non-trivial = mutated program or nesting depth >= 2; distinct by case text"
+        "type-directed random programs (global consts, inline functions with return, scripts; assignments and compound assignments, declarations with/without initialiser incl. untyped `var`, const declarations, instruction calls against 8 signatures incl. padding and string parameters, if / else-if / else, while, do-while, loop, times with and without clobber, conditional goto/break, interrupt and time labels, free blocks nested up to depth 4) and ALL their single-point mutations: every expression node at every depth (literal, operand, variable, sigil, cast, operator, argument, arity, opcode), every assignment/clobber target, every assignment operator, every return, every declared type; plus standalone expressions with their mutations; a second stream of the same shape over the extended language: every expression position may hold a difficulty switch (blank cases), ++ / --, a qualified or bare enum constant, offsetof / timeof, a call of a user-defined function; calls with @mask / @pop / @arg0 / @nargs / @blob; 1-3 functions with int / float / var parameters (inline, const, exported) per file, multi-variable declarations and const items, return at every depth, label expressions that are switches / enum constants; additional mutations: one switch case to another type, blank cases added / removed, ++ / -- operand to a float / untyped / constant variable, pseudo-argument kind / value type / blob next to arguments / on a user function, user-call arity and argument types, parameter types, function return types; the two open findings replayed on the real compiler (TH08 ANM, TH10 ECL); non-trivial = mutated program or nesting depth >= 2; distinct by case text"
     }
     fn theorems(&self) -> &'static [&'static str] {
-        &["TruthModel.C09.check_sound", "TruthModel.C09.check_complete", "TruthModel.C09.computeTy_agrees", "TruthModel.C09.stmts_accept_iff_welltyped", "TruthModel.C09.stmts_accept_iff_welltyped_for_cfg", "TruthModel.C09.stmts_accept_iff_welltyped_status", "TruthModel.C09.type_preservation"]
+        &["TruthModel.C09.check_sound", "TruthModel.C09.check_complete", "TruthModel.C09.computeTy_agrees", "TruthModel.C09.stmts_accept_iff_welltyped", "TruthModel.C09.stmts_accept_iff_welltyped_for_cfg", "TruthModel.C09.stmts_accept_iff_welltyped_status", "TruthModel.C09.type_preservation", "TruthModel.C09.computeTy_agrees_status", "TruthModel.C09.check_rejects_const_xcrement_status", "TruthModel.C09.decls_eq_sequence", "TruthModel.C09.return_checked_at_every_depth"]
     }
 
     fn gen(&self, tier: Tier, rng: &mut Rng) -> Vec<Case> {
@@ -1014,7 +1417,7 @@ impl Prop for C09 {
         }
         // (c) standalone expressions (registers and literals), mutants, static vs dynamic type
         for k in 0..400 * scale {
-            let mut g = Gen { rng, vars: vec![], scopes: vec![vec![]], consts: vec![], loops: 0, label: 0, next_root: 0, tame: false };
+            let mut g = Gen { rng, vars: vec![], scopes: vec![vec![]], consts: vec![], loops: 0, label: 0, next_root: 0, tame: false, ext: false, funcs: vec![], ret: None };
             let depth = 1 + (k % 5) as u32;
             let e = match k % 7 { 0..=2 => g.expr('i', depth), 3..=5 => g.expr('f', depth), _ => g.call(depth.min(3)) };
             let ctx = ctx_sexp(&[], &[]);
@@ -1025,15 +1428,59 @@ impl Prop for C09 {
                 out.push(Case::corr(app("expr", vec![mctx, me])).tag(format!("expr-{}", tag.split('@').next().unwrap_or("mut"))));
             }
         }
+        // ---- the extended language: a separate stream after everything else --------------------
+        // (d) programs with the new constructs at every nesting position, and all their single-point mutants
+        for k in 0..150 * scale {
+            let depth = 1 + (k % 4) as u32;
+            let (ctx, items) = gen_program_ext(rng, false, depth);
+            let d = max_depth(&items);
+            let mut c = Case::corr(app("xprog", vec![ctx.clone(), Sexp::list(items.clone())])).tag("xprog-generated").tag(format!("xdepth-{d}")).trivial(d < 2);
+            for h in ["sw", "xcr", "enum", "lprop", "callx", "decls", "consts"] { if items.iter().any(|s| has_head(s, h)) { c = c.tag(format!("has-{h}")); } }
+            out.push(c);
+            for (mctx, mitems, tag) in mutants(&ctx, &items, rng, 2) {
+                let mctx = refresh_ext_ctx(&mctx, mitems.as_list());
+                out.push(Case::corr(app("xprog", vec![mctx, mitems])).tag(format!("x{tag}")));
+            }
+        }
+        // (e) through the real ANM compiler
+        for k in 0..60 * scale {
+            let depth = 1 + (k % 3) as u32;
+            let (ctx, items) = gen_program_ext(rng, true, depth);
+            out.push(Case::search(app("xpipe", vec![ctx.clone(), Sexp::list(items.clone())])).tag("xpipe-generated"));
+            let mut ms = mutants(&ctx, &items, rng, 1);
+            rng.shuffle(&mut ms);
+            for (mctx, mitems, _) in ms.into_iter().take(6) {
+                let mctx = refresh_ext_ctx(&mctx, mitems.as_list());
+                out.push(Case::search(app("xpipe", vec![mctx, mitems])).tag("xpipe-mutant"));
+            }
+        }
+        // (f) standalone expressions (no user functions: there is no file to define them in)
+        for k in 0..300 * scale {
+            let mut g = Gen { rng, vars: vec![], scopes: vec![vec![]], consts: vec![], loops: 0, label: 0, next_root: 0, tame: false, ext: true, funcs: vec![], ret: None };
+            let depth = 1 + (k % 4) as u32;
+            let e = match k % 7 { 0..=2 => g.expr('i', depth), 3..=4 => g.expr('f', depth), 5 => g.ext_call(depth.min(3)), _ => { let t = *g.rng.pick(&['i', 'f', 's']); g.ext_expr(t, depth).unwrap_or_else(|| g.xcr()) } };
+            let ctx = ctx_sexp_ext(&[], &[], &[]);
+            out.push(Case::corr(app("xexpr", vec![ctx.clone(), e.clone()])).tag("xexpr-generated").trivial(depth < 2));
+            let wrapped = vec![app("estmt", vec![e])];
+            for (mctx, m, tag) in mutants(&ctx, &wrapped, rng, 2) {
+                let me = m.as_list()[0].args()[0].clone();
+                out.push(Case::corr(app("xexpr", vec![mctx, me])).tag(format!("xexpr-{}", tag.split('@').next().unwrap_or("mut"))));
+            }
+        }
+        // (g) the open findings, on the real compiler
+        for name in ["xcrement-const", "xcrement-local", "string-enum-const", "string-enum-bare"] {
+            out.push(Case::search(app("replay", vec![atom(name)])).tag(format!("replay-{name}")));
+        }
         out
     }
 
     fn eval(&self, case: &Sexp) -> Sexp {
         let a = case.args();
         match case.head() {
-            Some("prog") => eval_prog(&a[0], a[1].as_list()),
-            Some("expr") => eval_expr(&a[1]),
-            Some("pipe") => eval_pipe(&a[0], a[1].as_list()),
+            Some("prog") | Some("xprog") => eval_prog(&a[0], a[1].as_list()),
+            Some("expr") | Some("xexpr") => eval_expr(&a[0], &a[1]),
+            Some("pipe") | Some("xpipe") => eval_pipe(&a[0], a[1].as_list()),
+            Some("replay") => eval_replay(a[0].as_atom()),
             _ => Sexp::atom("bad-case"),
         }
     }
@@ -1042,7 +1489,7 @@ impl Prop for C09 {
         if let Some(f) = default_judge(result) { return Some(f); }
         let a = case.args();
         match (case.head(), result.head()) {
-            (Some("prog"), Some(r @ ("ok" | "err"))) => {
+            (Some("prog" | "xprog"), Some(r @ ("ok" | "err"))) => {
                 let sites = ill_typed_sites(&a[0], a[1].as_list());
                 if r == "ok" && !sites.is_empty() {
                     return Some(Failure { signature: format!("typecheck-accepts-illtyped {}", sites[0]), what: format!("type_check::run accepts an ill-typed program ({} ill-typed statement(s), first: {}): {}", sites.len(), sites[0], program_text(&a[0], a[1].as_list()).replace('\n', " ")) });
@@ -1052,10 +1499,10 @@ impl Prop for C09 {
                 }
                 None
             },
-            (Some("expr"), Some(r @ ("ok" | "err"))) => {
+            (Some("expr" | "xexpr"), Some(r @ ("ok" | "err"))) => {
                 let expected = RefTyper::new(&a[0]).expr(&a[1]);
                 match (r, expected) {
-                    ("ok", Err(why)) => Some(Failure { signature: format!("typecheck-accepts-illtyped {}", if why == Ill::Padding { "call=padding" } else { "expr" }), what: format!("accepted: {}", expr_text(&a[1])) }),
+                    ("ok", Err(why)) => Some(Failure { signature: format!("typecheck-accepts-illtyped {}", match why { Ill::Padding => "call=padding", Ill::ConstWrite => "xcrement-of-constant", Ill::Plain => "expr" }), what: format!("accepted: {}", expr_text(&a[1])) }),
                     ("err", Ok(_)) => Some(Failure { signature: "typecheck-rejects-welltyped expr".into(), what: format!("rejected ({}): {}", result, expr_text(&a[1])) }),
                     ("ok", Ok(t)) => {
                         let name = match t { ET::Void => "void", ET::Val(T::I) => "int", ET::Val(T::F) => "float", ET::Val(T::S) => "string" };
@@ -1073,8 +1520,9 @@ impl Prop for C09 {
         // program survive the rest of the compiler?
         let a = case.args();
         match case.head() {
+            Some("xprog") => vec![Case::search(app("xpipe", vec![a[0].clone(), a[1].clone()]))],
             Some("prog") => vec![Case::search(app("pipe", vec![a[0].clone(), a[1].clone()]))],
-            Some("expr") => vec![Case::search(app("pipe", vec![a[0].clone(), Sexp::list(vec![app("script", vec![int(0), Sexp::list(vec![app("assign", vec![app("ref", vec![atom("r"), int(10000), atom("n")]), atom("assign"), a[1].clone()])])])])]))],
+            Some("expr") | Some("xexpr") => vec![Case::search(app("pipe", vec![a[0].clone(), Sexp::list(vec![app("script", vec![int(0), Sexp::list(vec![app("assign", vec![app("ref", vec![atom("r"), int(10000), atom("n")]), atom("assign"), a[1].clone()])])])])]))],
             _ => vec![],
         }
     }
